@@ -67,10 +67,18 @@ class Grammar:
             for t in terms:
                 g.set_precedence(t, assoc, level)
         self.productions: List[Production] = []
+        from .sem import expand_helpers
+
         for f in funcs:
             doc = ast.get_docstring(f, clean=False)
             if not doc:
                 raise AnalysisError(f"{PARSER}::{f.name} has no grammar docstring")
+            # an action may delegate to a private helper of the parser (`self.__SetLiteral(p, value, type)`): the rules read the
+            # action with such statement-level helpers in place (the location helper is an expression, it stays a call)
+            try:
+                f = expand_helpers(model, pcls, f, skip=("v_", "p_", "__GetLocation", "_NslParser__GetLocation"))
+            except Exception:
+                pass
             try:
                 parsed = yacc.parse_grammar(doc, PARSER, f.lineno)
             except SyntaxError as e:
